@@ -175,6 +175,20 @@ def run(ctx: Ctx, rs: RuleSet, tier: str):
       if set(names) & set(ops):
         order = names
   if order is None:
+    # the same order written out: one loop over the changes per operation type
+    seq = []
+    for st_ in ac.node.body:
+      if isinstance(st_, ast.For) and unparse(st_.iter) == ac.params[0]:
+        tys = [isinstance_names(b_.test) for b_ in st_.body
+               if isinstance(b_, ast.If)]
+        if len(st_.body) == 1 and len(tys) == 1 and len(tys[0]) == 1 and any(
+            isinstance(c_, ast.Call) and isinstance(
+                c_.func, ast.Attribute) and c_.func.attr == 'apply'
+            for c_ in ast.walk(st_)):
+          seq.append(next(iter(tys[0])))
+    if seq and set(seq) & set(ops):
+      order = seq
+  if order is None:
     raise AnalysisError('_apply_changes: order tuple not found')
   rs.check(set(order) == set(ops) and len(order) == len(set(order)), rule,
            f'{ac.qualname}:order-tuple',
